@@ -545,10 +545,13 @@ fn http_part(r: &mut Report) {
                         let (c, s) = ((1u8, 40000u16), (2u8, 80u16));
                         let syn = pkt::build(&Spec { src: c.0, sport: c.1, dst: s.0, dport: s.1, flags: SYN, seq: 999, ..Spec::default() });
                         let synack = pkt::build(&Spec { src: s.0, sport: s.1, dst: c.0, dport: c.1, flags: SYN | ACK, seq: 4999, ack: 1000, ..Spec::default() });
+                        // the message arrives in a plain data segment, or (every other case) in the segment that also closes
+                        // the sender's side, as short HTTP/1.0-style exchanges do
+                        let fin = if (mask + ua_style) % 2 == 1 { 1u8 } else { 0 };
                         let data = if is_req {
-                            pkt::build(&Spec { src: c.0, sport: c.1, dst: s.0, dport: s.1, flags: ACK | PSH, seq: 1000, ack: 5000, payload: head.clone().into_bytes(), ..Spec::default() })
+                            pkt::build(&Spec { src: c.0, sport: c.1, dst: s.0, dport: s.1, flags: ACK | PSH | fin, seq: 1000, ack: 5000, payload: head.clone().into_bytes(), ..Spec::default() })
                         } else {
-                            pkt::build(&Spec { src: s.0, sport: s.1, dst: c.0, dport: c.1, flags: ACK | PSH, seq: 5000, ack: 1000, payload: head.clone().into_bytes(), ..Spec::default() })
+                            pkt::build(&Spec { src: s.0, sport: s.1, dst: c.0, dport: c.1, flags: ACK | PSH | fin, seq: 5000, ack: 1000, payload: head.clone().into_bytes(), ..Spec::default() })
                         };
                         let res = guarded(|| {
                             let mut a = HttpSeq::new(Some(d), 8);
